@@ -9,7 +9,7 @@ mode, selected by document hash), feeds each to `succinctly yq --validate -o jso
 import json, os
 import batch, common
 
-SLICE = {"quick": 300, "thorough": 400}
+SLICE = {"quick": 600, "thorough": 400}
 
 
 def job(doc):
@@ -20,7 +20,39 @@ def rejected(r):
     return r[0] == "3" or b"validation error" in r[2]
 
 
-def signature(r):
+def dedent_to_compact_level(doc, line_no):
+    """Python twin of the Rust classifier: the rejected line returns to the column of a compact collection
+    entry opened on the nearest earlier less-indented line (only deeper lines in between)."""
+    import re
+    lines = re.split(rb"\r\n|\r|\n", doc)
+    if line_no - 1 >= len(lines):
+        return False
+    d = len(lines[line_no - 1]) - len(lines[line_no - 1].lstrip(b" "))
+    for ln in reversed(lines[:line_no - 1]):
+        body = ln.lstrip(b" ")
+        ind = len(ln) - len(body)
+        if not body or body.startswith(b"#"):
+            continue
+        if ind == d:
+            return False
+        if ind < d:
+            col = ind
+            while ln[col:col + 2] == b"- ":
+                col += 1
+                while ln[col:col + 1] == b" ":
+                    col += 1
+                if col == d:
+                    return True
+            return False
+    return False
+
+
+def signature(r, doc=b""):
+    import re
+    err0 = r[2].decode("utf8", "replace")
+    m = re.search(r"<stdin>:(\d+):(\d+)", err0)
+    if "inconsistent indentation" in err0 and m and dedent_to_compact_level(doc, int(m.group(1))):
+        return "cli:yq--validate:false-reject:BadIndentation:dedent-to-compact-collection-level"
     err = r[2].decode("utf8", "replace")
     first = err.split("\n")[0]
     kind = first.split("validation error:")[-1].strip().split("(")[0].strip().replace(" ", "-")[:40] if "validation error" in first else "exit-" + r[0]
@@ -38,7 +70,7 @@ def run(ctx):
         if r1 != r2:
             raise common.Machinery("replay not deterministic")
         if rejected(r1):
-            rep.fail(signature(r1), 0, batch.job_example(job(doc), r1))
+            rep.fail(signature(r1, doc), 0, batch.job_example(job(doc), r1))
         elif batch.crashed(r1[0]):
             rep.fail("cli:yq--validate:crash", 0, batch.job_example(job(doc), r1))
         return rep.to_json()
@@ -66,7 +98,7 @@ def run(ctx):
         if rejected(r) or batch.crashed(r[0]):
             same, real = batch.confirm(j, r)
             if rejected(real):
-                rep.fail(signature(real), len(j[1]), batch.job_example(j, real))
+                rep.fail(signature(real, j[1]), len(j[1]), batch.job_example(j, real))
             elif batch.crashed(real[0]):
                 rep.fail("cli:yq--validate:crash", len(j[1]), batch.job_example(j, real))
     if docs:
